@@ -83,6 +83,15 @@ def gen_table(rng, flavour=None):
     # a dnc flag is a class-level decorator argument: inherited attributes get
     # re-built with the subclass's own (empty) do_not_copy list, so drop it there
     table = [k1, k2, k3]
+    if flavour == "plain":       # a plain (undecorated) subclass of K2 overriding some defaults
+        ov = []
+        if rng.random() < 0.7:
+            ov.append({"aid": 1, "inherited": True, "override": V(rng.choice([8, 9]))})
+        if rng.random() < 0.5:
+            ov.append({"aid": 50, "inherited": True, "override": ("list", [V(7)])})
+        if rng.random() < 0.4:
+            ov.append({"aid": 3, "inherited": True, "override": V(6)})
+        table.append({"id": 4, "base": 2, "kind": "plain", "frozen": k2_frozen, "frozen_inherited": True, "attrs": ov})
     return table
 
 
@@ -218,7 +227,7 @@ class Hist:
         if cid == 1:
             return self.table[0]["attrs"]
         base = self.table[1]["attrs"]
-        if cid == 2:
+        if cid in (2, 4):        # K4: plain subclass of K2, same managed attributes
             return base
         return base + [a for a in self.table[2]["attrs"] if not a.get("inherited")]
 
@@ -442,12 +451,12 @@ def gen_history(rng, table, nd, n_ops, bad_rate=0.2, inplace_rate=0.3, fail_rate
                 h.add(("helper", x, ("with", a["aid"]), {"pos": [h.value_for(a)]}), ("inst", h.kinds[x][1]))
                 x = len(h.kinds) - 1
     else:
-        h.construct(rng.choice([2, 2, 3, 1]))
+        h.construct(rng.choice([2, 2, 3, 1] + ([4, 4, 4] if len(table) > 3 else [])))
     for _ in range(n_ops):
         insts = h.roots_of(lambda k: k[0] == "inst")
         k = rng.choice(kinds)
         if k == "construct" or not insts:
-            h.construct(rng.choice([1, 2, 2, 3]), bad_rate)
+            h.construct(rng.choice([1, 2, 2, 3] + ([4, 4, 4] if len(table) > 3 else [])), bad_rate)
             continue
         x = rng.choice(insts[-4:])
         cid = h.kinds[x][1]
